@@ -280,6 +280,26 @@ impl Part for C13 {
                         }
                     }
                 }
+                // an identity pair whose halves do not belong together (the API takes them as two independent values)
+                if c.mode.has_auth() {
+                    let other = keys(c.suite.kem, 13_200, cfg.seed);
+                    for (what, sk_s, pk_s) in [("foreign public half", k.sk_s.clone(), other.pk_s.clone()), ("recipient's public key as own public half", k.sk_s.clone(), k.pk_r.clone())] {
+                        let m2 = ModeSpec { sk_s, pk_s, ..m.clone() };
+                        let mut rng = ScriptRng::new(&k.ikm_e);
+                        let o = ops.setup_sender(&m2, &k.pk_r, &info, &mut rng);
+                        if let Some(e) = no_panic(&mut out, &format!("setup_sender(identity pair with a {})", what), &o) {
+                            if e != HpkeError::EncapError {
+                                out.fail(format!("setup_sender(identity pair with a {}) failed with {:?}; only EncapError is allowed", what, e));
+                            }
+                        }
+                        let mut rng = ScriptRng::new(&k.ikm_e);
+                        if let Some(e) = no_panic(&mut out, "single_shot_seal(mismatched identity pair)", &ops.single_shot_seal(&m2, &k.pk_r, &info, b"pt", b"", &mut rng)) {
+                            if e != HpkeError::EncapError {
+                                out.fail(format!("single_shot_seal(identity pair with a {}) failed with {:?}; only EncapError is allowed", what, e));
+                            }
+                        }
+                    }
+                }
                 // keys of the session itself in the wrong role: the receiver's own public key reflected as enc / as sender key
                 for (what, enc_x, pk_s_x) in [("enc = the receiver's own public key", k.pk_r.clone(), k.pk_s.clone()), ("sender key = the receiver's own public key", k.pk_s.clone(), k.pk_r.clone()), ("enc = the sender's identity key", k.pk_s.clone(), k.pk_s.clone())] {
                     let m2 = ModeSpec { pk_s: if c.mode.has_auth() { pk_s_x } else { vec![] }, ..m.clone() };
